@@ -120,6 +120,32 @@ theorem key_order :
 strictly increasing key order (`key_order`) -/
 theorem keys_sorted (v : J) (h : DistinctKeys v) : KeysSorted (norm v) := norm_keysSorted v h
 
+/-- No memory inside one object (and the model, a pure function, has none between calls): the order in
+which the entries of a dict are printed is a function of that dict alone. `norm` of a list is the list of
+the `norm`s of its items, `norm` of a dict sorts its own entries, each value normalised by itself; and the
+keys that Python takes for equal (`True`/`1`, `False`/`0`: equal, of equal hash) are different keys of
+different ranks here — the number before every string, the constant after every string — whatever other
+dicts the value holds and whatever was printed before. (A printer that remembers the sort value of `True`
+for the key `1` of a sibling dict breaks the tie on exactly these values.) -/
+theorem order_is_local :
+    (∀ xs : List J, norm (.list xs) = .list (xs.map norm)) ∧
+    (∀ kvs : List (Key × J), norm (.dict kvs) = .dict (sortE (kvs.map fun kv => (kv.1, norm kv.2)))) ∧
+    (∀ s, kLt (.int 1) (.str s) = true ∧ kLt (.str s) (.kw .tt) = true ∧
+          kLt (.int 0) (.str s) = true ∧ kLt (.str s) (.kw .ff) = true) := by
+  refine ⟨fun xs => ?_, fun kvs => ?_, fun _ => ⟨rfl, rfl, rfl, rfl⟩⟩
+  · have h : ∀ ys : List J, normList ys = ys.map norm := by
+      intro ys
+      induction ys with
+      | nil => simp [normList]
+      | cons y ys ih => simp [normList, ih]
+    simp [norm, h]
+  · have h : ∀ es : List (Key × J), normEntries es = es.map fun kv => (kv.1, norm kv.2) := by
+      intro es
+      induction es with
+      | nil => simp [normEntries]
+      | cons e es ih => obtain ⟨k, v⟩ := e; simp [normEntries, ih]
+    simp [norm, h]
+
 /-- The line iteration and the text agree: joining the lines of `_gen_ch_lines` with line feeds is
 the plain text (no line is lost at the end, no empty line appears). `groupLines` is a function of
 the chunk list: the lines are values, so the statement covers every order in which a caller
